@@ -47,7 +47,8 @@ def setup_net(case):
         else:
             r = t['resolver']
             v4, v6 = (AF4, '198.51.100.%d' % (1 + abs(hash_str(host)) % 200)), (AF6, '2001:db8:aaaa::%x' % (1 + abs(hash_str(host)) % 60000))
-            ips = {'v4': [v4], 'v6': [v6], 'both46': [v4, v6], 'both64': [v6, v4]}[r]
+            v4b, v6b = (AF4, '198.51.100.%d' % (201 + abs(hash_str(host)) % 50)), (AF6, '2001:db8:bbbb::%x' % (1 + abs(hash_str(host)) % 60000))
+            ips = {'v4': [v4], 'v6': [v6], 'both46': [v4, v6], 'both64': [v6, v4], 'mixed464': [v4, v6, v4b], 'mixed646': [v6, v4, v6b], 'many': [v6, v6b, v4, v4b]}[r]
             net.resolve[host] = ips
         for af, ip in ips:
             if 1 <= port <= 65535:
@@ -137,6 +138,8 @@ def eval_case(case):
         if af not in allowed:
             fails.append(['connection-with-excluded-family', 'argv %r: family %d' % (argv, af)])
         by_target.setdefault(owner['text'], []).append(af)
+        if af in (AF4, AF6) and fam in ('-46', '-64'):
+            pass
     for t in targets:
         ips = net.resolve.get(t['host']) or [(AF6 if ':' in t['host'] else AF4, t['host'])]
         usable = [a for a, _ in ips if a in allowed]
@@ -179,22 +182,30 @@ def strat_case():
         else:
             spelling = ['host', 'host:port'][sp % 2]
         return {'host': h, 'port': p, 'spelling': spelling, 'resolver': res}
-    tgt = st.tuples(host, port, st.integers(0, 5), st.sampled_from(['v4', 'v6', 'both46', 'both64'])).map(target)
+    tgt = st.tuples(host, port, st.integers(0, 5), st.sampled_from(['v4', 'v6', 'both46', 'both64', 'mixed464', 'mixed646', 'many'])).map(target)
 
     def build(t):
         tg, where, p_opt, fam, js, noise, n_extra, rate = t
-        targets = tg[:1 + (n_extra if where == 'file' else 0)]
-        seen, uniq = set(), []
+        targets = list(tg[:1 + (n_extra if where == 'file' else 0)])
+        if where == 'file' and n_extra == 2 and len(targets) == 3:
+            # the same host listed again on another port (a different target)
+            h0 = targets[0]
+            sp = '[host]:port' if ':' in h0['host'] else 'host:port'
+            targets[2] = dict(h0, spelling=sp, port=(h0['port'] % 60000) + 1000)
+            targets[0] = dict(h0, spelling=sp)
+        out, seen = [], set()
         for x in targets:
-            if x['host'] not in seen:
-                seen.add(x['host'])
-                uniq.append(x)
-        out = []
-        for x in uniq:
             default = p_opt if p_opt is not None else 22
             eport = x['port'] if x['spelling'] in ('host:port', '[host]:port') else default
             if where == 'cli' and p_opt is not None and x['spelling'] in ('host:port', '[host]:port'):
                 eport = x['port']     # "the port option as default": an explicit port in the target wins
+            if (x['host'], eport) in seen:
+                continue
+            # one resolver answer per host name
+            prev = [y for y in out if y['host'] == x['host']]
+            if prev:
+                x = dict(x, resolver=prev[0]['resolver'])
+            seen.add((x['host'], eport))
             out.append(dict(x, eport=eport, text=spell(x['host'], x['port'], x['spelling'])))
         return {'targets': out, 'where': where, 'p_opt': p_opt, 'fam': fam, 'json': js, 'noise': noise and where == 'file', 'rate': rate and where == 'cli' and not js}
     return st.tuples(st.lists(tgt, min_size=3, max_size=3), st.sampled_from(['cli', 'cli', 'file']), st.one_of(st.none(), st.none(), st.sampled_from([22, 2222, 1, 65535, 8022])), st.sampled_from(['', '', '-4', '-6', '-46', '-64']),
